@@ -1,29 +1,20 @@
 (* Props/C20json.v — Canonical encoding of FAT-2 batch contents (the JSON part of C20).
    Only statements, each closed by [exact]; proofs live in Lemmas/CodecLemmas.v.
 
-   FULL STATEMENT AIMED AT (accepted_is_canonical):
-     forall addr_of_text bytes b,
-       decode_batch addr_of_text bytes = Some b -> valid_data b = true ->
-       canonical_bytes bytes = true
-   i.e. whatever UnmarshalJSON + ValidData accept parses to an object with exactly the members
-   version (= 1) and transactions (a non-empty array), every transaction has exactly input and
-   one of transfers / conversion (+ optional metadata), every tuple exactly its two / three
-   members, no unknown and no duplicate key at any level, known tickers written exactly; the
-   tolerated variations are the ones written into [canon_*] in Model/Codec.v: ASCII case of key
-   letters, member order, inter-token white space, escapes inside an address string, the literal
-   null in place of an address or an amount (decoded as the zero address / 0), and -- outside
-   the JSON layer -- alternative base58 spellings of one address (see the report).
-   WHAT IS PROVED BELOW (hence the _partial suffix):
-     * the length-accounting argument itself, for every struct at once (C20_length_accounting);
-     * level 1 (AddressAmountTuple) and level 2 (TypedAddressAmountTuple) completely;
-     * everything Validate / ValidData / the int64 bound / ValidatePegTx establish on the
-       decoded value (tickers in 1..62, one input address, transfers sum to the input, ...).
-   MISSING: the transaction and batch levels (same argument instantiated with names_tx /
-   names_batch plus the Trim reasoning for the conversion ticker), the lemma that parse_json
-   only produces values satisfying wf_jv (so the level theorems carry wf_jv as a premise), and
-   encode_decode (decode (encode b) = Some b), which is checked by the correspondence run only
-   (Corr.Codec.json_agrees compares Model.Codec.encode with json.Marshal, and the Go side re-decodes
-   its own re-encoding on every accepted case). *)
+   (a) accepted_is_canonical is proved at full strength, for ALL byte strings and every base58
+   oracle: whatever UnmarshalJSON + ValidData accept parses to an object with exactly the
+   members version (the literal 1) and transactions (a non-empty array); every transaction has
+   exactly input and one of transfers (non-empty array) / conversion, plus optional metadata;
+   every tuple exactly address, amount (and type); no unknown and no duplicate key at any level;
+   tickers written exactly as one of the 62 names.  The tolerated variations are the ones written
+   into [canon_*] in Model/Codec.v and nothing else: ASCII case of key letters, member order,
+   inter-token white space, escapes inside an address string, the literal null in place of an
+   address or an amount (decoded as the zero address / 0), arbitrary metadata values, and --
+   below the JSON layer -- alternative base58 spellings of one address (oracle; see the report).
+   (b) encode_decode is NOT proved: Model.Codec.encode is compared with json.Marshal, and Go's
+   own re-encoding is re-decoded, on every accepted case of the correspondence run
+   (Corr.Codec.json_agrees / json_canonical_on); a proof needs the parser round trip
+   parse_json (print j) = Some j, which is not in Lemmas/ yet. *)
 From Coq Require Import ZArith List Bool.
 From Model Require Import Codec Db.
 From Lemmas Require Import CodecLemmas.
@@ -48,16 +39,38 @@ Theorem C20_matched_key_length : forall name raw, plain_name name -> key_is name
 Proof. exact key_is_length. Qed.
 Print Assumptions C20_matched_key_length.
 
-Theorem C20_tuple_canonical_partial : forall addr_of_text j tr, wf_jv j = true ->
+(* the parser only keeps well-formed raw texts (numbers in JSON syntax, strings without bare quotes) *)
+Theorem C20_parser_keeps_wellformed : forall s j, parse_json s = Some j -> wf_jv j = true.
+Proof. exact parse_json_wf. Qed.
+Print Assumptions C20_parser_keeps_wellformed.
+
+(* level by level, on parsed values *)
+Theorem C20_tuple_canonical : forall addr_of_text j tr, wf_jv j = true ->
   decode_tuple addr_of_text j = Some tr -> canon_tuple j = true.
 Proof. exact decode_tuple_canonical. Qed.
-Print Assumptions C20_tuple_canonical_partial.
+Print Assumptions C20_tuple_canonical.
 
-Theorem C20_input_canonical_partial : forall addr_of_text j a n t, wf_jv j = true ->
+Theorem C20_input_canonical : forall addr_of_text j a n t, wf_jv j = true ->
   decode_typed_tuple addr_of_text j = Some (a, n, t) -> 0 < t ->
   canon_input j = true /\ t < PTickerMax /\ 0 <= n <= max_uint64.
 Proof. exact decode_typed_tuple_canonical. Qed.
-Print Assumptions C20_input_canonical_partial.
+Print Assumptions C20_input_canonical.
+
+Theorem C20_transaction_canonical : forall addr_of_text j t, wf_jv j = true ->
+  decode_transaction addr_of_text j = Some t -> tx_validate t = true -> canon_tx j = true.
+Proof. exact decode_transaction_canonical. Qed.
+Print Assumptions C20_transaction_canonical.
+
+Theorem C20_batch_canonical : forall addr_of_text j b, wf_jv j = true ->
+  decode_batch_j addr_of_text j = Some b -> valid_data b = true -> canon_batch j = true.
+Proof. exact decode_batch_canonical. Qed.
+Print Assumptions C20_batch_canonical.
+
+(* (a) for every byte string offered as batch content *)
+Theorem C20_accepted_is_canonical : forall (addr_of_text : bytes -> option Z) (bytes : bytes) (b : batch),
+  decode_batch addr_of_text bytes = Some b -> valid_data b = true -> canonical_bytes bytes = true.
+Proof. exact accepted_is_canonical. Qed.
+Print Assumptions C20_accepted_is_canonical.
 
 (* what Validate establishes for every transaction of an accepted batch *)
 Theorem C20_tx_validate_facts : forall t, tx_validate t = true ->
